@@ -46,6 +46,7 @@ Apply(op) ==
       [] op.a = "get" -> IF S.active THEN Get(op.k) ELSE Skip(op)
       [] op.a = "sload" -> IF S.active THEN SLoad(op.k) ELSE Skip(op)
       [] op.a = "fetch" -> IF S.active THEN Fetch(op.k) ELSE Skip(op)
+      [] op.a = "probation" -> IF S.active /\ ~S.prob THEN MarkProbation ELSE Skip(op)
       [] op.a = "clear" -> IF S.active /\ ~S.hold /\ ~S.gate THEN Clear ELSE Skip(op)
       [] op.a = "evict_all" -> IF S.active THEN EvictAll ELSE Skip(op)
       [] op.a = "evict_all_nt" -> IF S.active THEN EvictAllNoTurn ELSE Skip(op)
